@@ -1,6 +1,7 @@
 # C10 — block layout: correspondence of Layout.v (PrimFloat rule + partitions, evaluated inside
 # Coq with vm_compute) with the generation and correction code of both tools.
 import io, os, tempfile, shutil
+from fractions import Fraction
 
 RULE = ('exhaustive file sizes 0..min(N, 100*max_block_size) (N=1200 quick, 3000 thorough) for each configuration of a grid (max_block_size, header '
         'size, rate triple increasing/decreasing/equal, hash length 0/4/8/32), both tools. Per (size, config): the '
@@ -123,6 +124,9 @@ def run(ctx):
             ctx.disagree({'kind': 'msize', 'mb': mb, 'rate': float(r).hex()}, m, ip['message_size'])
         if not (1 <= ip['message_size'] <= mb) and 0 < r <= 1:
             ctx.fail({'kind': 'msize', 'mb': mb, 'rate': float(r).hex()}, {'message_size': ip['message_size']})
+        want = rule_ms(mb, Fraction(r))        # the published rule, evaluated on exact rationals (exact ties: half to even)
+        if want is not None and (ip['message_size'] != want or ip['ecc_size'] != mb - want):
+            ctx.fail({'kind': 'msize', 'mb': mb, 'rate': float(r).hex()}, {'message_size': ip['message_size'], 'ecc_size': ip['ecc_size'], 'published_rule': [want, mb - want]})
     ctx.count('msize_pairs', len(pairs)); ctx.count('msize_exact_ties', ties)
     # 2. exhaustive sizes x configs, both tools
     d = tempfile.mkdtemp(prefix='pffc10')
@@ -190,6 +194,13 @@ def rule_ms(mb, rate):
     from fractions import Fraction as F
     x = F(mb) / (1 + 2 * rate)
     fl_, fr = x.numerator // x.denominator, x - x.numerator // x.denominator
+    if fr == F(1, 2):
+        # an exact tie: "round" is Python's round (half to even) - decided only when the float expression of the code,
+        # evaluated independently here, is that same exact value (no rounding error on the way)
+        q = float(mb) / (1 + 2 * float(rate))
+        if F(q) == x:
+            return fl_ if fl_ % 2 == 0 else fl_ + 1
+        return None
     if abs(fr - F(1, 2)) < F(1, 10 ** 9):
         return None
     return fl_ + (1 if fr > F(1, 2) else 0)
@@ -254,7 +265,8 @@ def replay_case(ctx, case):
         r = float.fromhex(case['rate'])
         ip = compute_ecc_params(case['mb'], r, FakeHasher(0))
         m = common.coq_eval_ints(HEADER, ['[msize %d %s]' % (case['mb'], fl(r))], jobs=1)[0][0]
-        return {'holds': 1 <= ip['message_size'] <= case['mb'] and ip['message_size'] == m, 'implementation': ip, 'model': m}
+        want = rule_ms(case['mb'], Fraction(r))
+        return {'holds': 1 <= ip['message_size'] <= case['mb'] and (want is None or ip['message_size'] == want), 'implementation': ip, 'model': m, 'published_rule': want}
     rt = [float.fromhex(x) for x in case['rates']]
     d = tempfile.mkdtemp(prefix='pffc10r')
     try:
